@@ -18,6 +18,8 @@ def check(pid):
 # binaries: name -> (package dir under the overlay root, race?)
 BINARIES = {
     "c19": ("zzverif/cmd/c19", False),
+    "flow": ("zzverif/cmd/flow", False),
+    "nf5": ("zzverif/cmd/nf5", False),
 }
 
 
@@ -37,6 +39,46 @@ def c19(tier):
                        "Non-trivial = buffer explored (bfs) / root whose subtree contains a sequence that consumed octets (seq); distinct by content hash.",
                   assumptions=["reader.Reader has exactly the fields (data []byte, count int) - asserted by reflection at start-up",
                                "negative length arguments are outside the statement ('a read of n octets')"], t0=t0)
+
+
+FLOW_ASSUME = ["reference encoders/interpretation written from RFC 7011/7012 and RFC 3954 (zzverif/ref) are correct",
+               "element types are taken from the information model in the tree (its agreement with the registry snapshot is C20)",
+               "well-formed input only: padding shorter than the shortest record, reduced-size encoding never longer than the natural size, booleans 1/2",
+               "private elements (enterprise 29305 / ids 30001-30009) are added to the exported model to reach signed and float32 interpretation"]
+
+
+def flow_records(pid, proto, tier):
+    t0 = time.time()
+    b = build("flow")
+    names = ["tpl2", "tpl3s", "pad8", "twosets", "allelems"]
+    if tier == "thorough":
+        names.append("tpl3")
+    res = [run_space(b, proto + "." + n, tier) for n in names]
+    return finish(pid, tier, res,
+                  rule="cases are generated from an abstract description: template of 1..3 field kinds over the kind alphabet (one element per abstract type x encoding class: natural, reduced-size, fixed string/octets, variable length with 1- and 3-octet prefixes, enterprise) x scope split 0..n x 1..3 records x padding 0..3 (pad8: 4..7) x 4 value patterns x template in an earlier / the same message; twosets: two templates and two data sets in either order; allelems: every model element as a one-field template in each encoding class. "
+                       "Non-trivial = every executed case (each carries >=1 record); distinct = distinct wire octets (FNV-64 of the message and of the announcing messages).",
+                  assumptions=FLOW_ASSUME, t0=t0)
+
+
+@check("C03")
+def c03(tier):
+    return flow_records("C03", "ipfix", tier)
+
+
+@check("C06")
+def c06(tier):
+    return flow_records("C06", "v9", tier)
+
+
+@check("C08")
+def c08(tier):
+    t0 = time.time()
+    b = build("nf5")
+    res = [run_space(b, "v5.rec", tier), run_space(b, "v5.pairs", tier)]
+    return finish("C08", tier, res,
+                  rule="v5.rec: version {5,0,9,10,0x0500} x count {1,2,29,30,0,31,65535} x datagram length {0..24, exact-48, exact-1, exact, exact+1, exact+48} x 61 content fills (position-unique, all-ones, all-zero, and per header/record field an all-ones one-hot and a low-bit pattern); v5.pairs: all ordered pairs of one-hot record fields in either record of a 2-flow packet. "
+                       "Non-trivial = packet with a complete 24-octet header; distinct = distinct wire octets.",
+                  assumptions=["field offsets/widths of the reference are transcribed from the Cisco NetFlow v5 export format", "JSON key names are those of the published format (the Go field names)"], t0=t0)
 
 
 def main(argv):
